@@ -29,6 +29,8 @@
 //  5. The JSON byte strings ("wfk", "np") are standard padded base64 inside a
 //     JSON string: that is what the README's Go struct ([]byte fields) and its
 //     example show.
+//  7. Header size: the README says nothing about a maximum length of the header or
+//     of the key name, so this package accepts (and produces) headers of any length.
 //  6. The tag of a segment: the README says each segment is
 //     "encrypted_chunk || tag"; the Go standard library's AEAD Seal output is
 //     exactly that layout for both ciphers.
